@@ -59,6 +59,7 @@ static char base_dir[600];
 static uint8_t *vbuf;
 static long points_max = 0;
 static long nested_max = 12;
+static int keypad_opt = -1;
 static int writer_tid = 0;
 static int mw_writers = 1;           /* > 1: group-commit workload with that many native writer threads */
 static int batch_lock = 0;
@@ -107,8 +108,20 @@ static int parse_num(const char *p, size_t n) {
   return v;
 }
 
-static size_t data_key(char *buf, int idx) { return (size_t)sprintf(buf, "d/%03d", idx); }
-static size_t marker_key(char *buf, int id) { return (size_t)sprintf(buf, "m/%08d", id); }
+/* some workloads use long keys: file bounds in the MANIFEST become large, so edits straddle 32 KiB blocks */
+#define KEYBUF 4200
+static int keypad = 0;
+static size_t marker_key(char *buf, int id) {
+  size_t n = (size_t)sprintf(buf, "m/%08d", id);
+  if (keypad > 0) { memset(buf + n, 'q', (size_t)keypad); n += (size_t)keypad; buf[n] = 0; }
+  return n;
+}
+static size_t data_key(char *buf, int idx) {
+  size_t n = (size_t)sprintf(buf, "d/%03d", idx);
+  if (keypad > 0) { memset(buf + n, 'p', (size_t)keypad); n += (size_t)keypad; buf[n] = 0; }
+  return n;
+}
+static size_t marker_key(char *buf, int id);
 
 static uint64_t make_vid(int batch, int idx, int odd) {
   return ((((uint64_t)batch << 16) | (uint64_t)(idx & 0xffff)) << 1) | (uint64_t)(odd & 1);
@@ -155,7 +168,7 @@ static void issue_batch_r(dbh_t *h, int nupd_hint, vrng_t *rg, uint8_t *vb, int 
   batch_t *b = new_batch();
   ldb_batch_t *wb = ldb_batch_create();
   ldb_writeopt_t wo = *ldb_writeopt_default;
-  char kb[32];
+  char kb[KEYBUF];
   int i, n = nupd_hint, id = b->id;
   ldb_slice_t k, v;
   uint64_t idv = (uint64_t)id;
@@ -524,14 +537,14 @@ static int scan_db(ldb_t *db, uint8_t *S, actual_t *act, int *unknown_keys, char
     ldb_slice_t k = ldb_iter_key(it), v = ldb_iter_value(it);
     const char *kp = k.data;
     nkeys++;
-    if (k.size == 10 && kp[0] == 'm' && kp[1] == '/') {
-      int id = parse_num(kp + 2, k.size - 2);
+    if (k.size == 10 + (size_t)keypad && kp[0] == 'm' && kp[1] == '/') {
+      int id = parse_num(kp + 2, 8);
       uint64_t idv = 0;
       if (v.size == 8) memcpy(&idv, v.data, 8);
       if (id >= 1 && id <= nbatches && idv == (uint64_t)id) S[id] = 1;
       else { (*unknown_keys)++; snprintf(unknown_msg, msz, "marker '%s' with value len %zu", vh_esc(k.data, k.size), v.size); }
-    } else if (k.size == 5 && kp[0] == 'd' && kp[1] == '/') {
-      int idx = parse_num(kp + 2, k.size - 2);
+    } else if (k.size == 5 + (size_t)keypad && kp[0] == 'd' && kp[1] == '/') {
+      int idx = parse_num(kp + 2, 3);
       if (idx >= 0 && idx < NKEYS) {
         act[idx].present = 1;
         act[idx].len = v.size;
@@ -553,7 +566,7 @@ static int scan_db(ldb_t *db, uint8_t *S, actual_t *act, int *unknown_keys, char
 
 static void compare_with_fold(ldb_t *db, const uint8_t *S, const actual_t *act, const char *when, const char *img) {
   kv_t exp[NKEYS];
-  char kb[16];
+  char kb[KEYBUF];
   int k;
   fold(S, exp);
   for (k = 0; k < NKEYS; k++) {
@@ -732,6 +745,7 @@ static void child_main(const char *dir, const expect_t *x, const image_t *im, in
   /* recovery-time configuration is independent of the recording configuration */
   c.paranoid = (int)(vr_next(&R) & 1);
   c.reuse_logs = (int)((vr_next(&R) >> 1) & 1);
+  c.use_mmap = vr_chance(&R, 120);          /* munmap is very expensive in this VM under parallel load */
   if (vr_chance(&R, 300)) c.write_buffer_size = 64 << 10;
 
   check_current(dir, img);
@@ -753,6 +767,19 @@ static void child_main(const char *dir, const expect_t *x, const image_t *im, in
     child_viol("C05", rc == LDB_CORRUPTION ? "open-reports-corruption" : "open-failed",
                "%s: ldb_open failed with %d (%s) [paranoid=%d reuse_logs=%d] last log line: %s", img, rc, ldb_strerror(rc),
                c.paranoid, c.reuse_logs, h.log.last_error);
+    /* a database that cannot be opened does not deliver its acknowledged writes either */
+    {
+      int nreq = 0, nack = 0;
+      for (i = 1; i <= nbatches; i++) nreq += x->required[i];
+      for (i = first_batch_of_incarnation; i < nbatches; i++) nack += batches[i].ev_ack < x->p;
+      for (i = 0; i < first_batch_of_incarnation; i++) nack += base_present[i + 1];
+      if (im->kind == K_MAX && nack > 0)
+        child_viol("C03", "open-failed-after-process-kill", "%s: ldb_open failed with %d (%s): %d acknowledged batches are unavailable [paranoid=%d reuse_logs=%d]",
+                   img, rc, ldb_strerror(rc), nack, c.paranoid, c.reuse_logs);
+      if (nreq > 0)
+        child_viol("C02", "open-failed-with-required-writes", "%s: ldb_open failed with %d (%s): %d synced/deleted-log batches are unavailable [paranoid=%d reuse_logs=%d]",
+                   img, rc, ldb_strerror(rc), nreq, c.paranoid, c.reuse_logs);
+    }
     goto out;
   }
   shm->counters[CN_OPEN_OK]++;
@@ -881,7 +908,7 @@ out:
 /* follow-up workload after recovery: writes take precedence and persist */
 static void followup_and_chain(dbh_t *h, uint8_t *S, const char *img, int do_chain) {
   kv_t exp[NKEYS];
-  char kb[32];
+  char kb[KEYBUF];
   int i, rc;
   uint64_t fvid[NKEYS];
   int fstate[NKEYS];   /* 0 untouched, 1 put, 2 deleted */
@@ -1094,12 +1121,23 @@ static void explore(const char *base, const uint8_t *acked_base) {
   uint8_t *sel = calloc(n + 2, 1);
   image_t im;
   int follow_every = focus == F_C05 ? 3 : 0;
-  long budget = points_max;
+  long budget = depth > 0 ? (points_max > 0 && points_max < 300 ? points_max : 300) : points_max;
   long nested_budget = nested_max;
+  long budget_cat[3];     /* separate allowances: inside multi-block WAL record, inside multi-block MANIFEST record, other */
+  budget_cat[0] = budget_cat[1] = budget_cat[2] = nested_max / 3 + (nested_max > 0);
   (void)acked_base;
 
   remember_preexisting();
   find_segments();
+  if (getenv("CRASHMON_DUMP")) {
+    size_t q;
+    for (q = 0; q < n; q++) {
+      const iom_event_t *e = iom_event(q);
+      if (e->pc == PC_MANIFEST || e->pc == PC_DIR)
+        fprintf(stderr, "ev %zu tid %d %s %s #%llu off %llu len %llu res %d\n", q, e->tid, iom_opname[e->op], iom_pcname[e->pc],
+                (unsigned long long)e->num, (unsigned long long)e->off, (unsigned long long)e->len, e->res);
+    }
+  }
 
   /* selection: every state-changing event and every ACK marker ... */
   for (p = 1; p <= n; p++) {
@@ -1142,15 +1180,23 @@ static void explore(const char *base, const uint8_t *acked_base) {
     do_nested = 0;
     if (depth + 1 < max_depth && nested_budget > 0) {
       const iom_event_t *e = iom_event(p - 1);
-      const iom_event_t *pe = p >= 2 ? iom_event(p - 2) : e;
+      const iom_event_t *ne = p < n ? iom_event(p) : NULL;     /* the call the process was about to make */
       uint32_t pr = 4;                                      /* permille */
-      if (e->op == IOP_WRITE && e->pc == PC_LOG && pe->op == IOP_WRITE && pe->pc == PC_LOG && pe->tid == e->tid) pr = 500;
+      int cat = 2;
+      if (ne != NULL && e->op == IOP_WRITE && (e->pc == PC_LOG || e->pc == PC_MANIFEST) && ne->op == IOP_WRITE &&
+          ne->pc == e->pc && ne->obj == e->obj && ne->tid == e->tid) {
+        /* between two write(2)s of one multi-block record */
+        pr = 600;
+        cat = e->pc == PC_LOG ? 0 : 1;
+        vh_count(e->pc == PC_LOG ? "points_inside_multiblock_wal_record" : "points_inside_multiblock_manifest_record", 1);
+      }
       else if (e->pc == PC_MANIFEST || e->pc == PC_CURRENT || e->pc == PC_DBTMP) pr = 120;
       else if (e->op == IOP_CREATE && e->pc == PC_LOG) pr = 200;
       else if (e->op == IOP_UNLINK) pr = 60;
-      if (vr_chance(&R, pr)) {
-        do_nested = 1 + (int)vr_uniform(&R, 2);
+      if (budget_cat[cat] > 0 && vr_chance(&R, pr)) {
+        do_nested = cat == 2 ? 1 + (int)vr_uniform(&R, 2) : 2;
         nested_budget--;
+        budget_cat[cat]--;
       }
     }
     im.p = p;
@@ -1243,6 +1289,7 @@ int main(int argc, char **argv) {
     else if (!strcmp(argv[i], "--depth") && i + 1 < argc) max_depth = atoi(argv[++i]);
     else if (!strcmp(argv[i], "--nested-max") && i + 1 < argc) nested_max = atol(argv[++i]);
     else if (!strcmp(argv[i], "--writers") && i + 1 < argc) mw_writers = atoi(argv[++i]);
+    else if (!strcmp(argv[i], "--keypad") && i + 1 < argc) keypad_opt = atoi(argv[++i]);
     else if (!strcmp(argv[i], "--dir") && i + 1 < argc) base = argv[++i];
     else if (!strcmp(argv[i], "--focus") && i + 1 < argc) {
       const char *fn = argv[++i];
@@ -1280,6 +1327,7 @@ int main(int argc, char **argv) {
   rec_cfg.use_mmap = (g_case >> 3) & 1;
   rec_cfg.max_file_size = 1 << 20;
   rec_cfg.paranoid = (g_case >> 1) & 1;
+  if (keypad_opt >= 0) keypad = keypad_opt;
 
   base_present = calloc(4, 1);
   iom_trace_reset();
@@ -1296,6 +1344,12 @@ int main(int argc, char **argv) {
   dbh_destroy(&h);
   iom_trace(0, 1);
 
+  {
+    size_t oi, mx = 0;
+    for (oi = 0; oi < iom_nobjs(); oi++) if (iom_obj((int)oi)->pc == PC_MANIFEST && iom_obj((int)oi)->len > mx) mx = iom_obj((int)oi)->len;
+    vh_count("largest_manifest_bytes", mx);
+    if (mx > 32768) vh_count("workloads_with_multiblock_manifest", 1);
+  }
   vh_count("workloads", 1);
   vh_count("trace_events", iom_nevents());
   vh_count("batches_issued", (uint64_t)nbatches);
